@@ -2,7 +2,7 @@
 import numpy as np
 
 FS_CHOICES = [100, 128, 200, 250, 500, 1000, 1024]
-FAMILIES = ['sine', 'asym', 'bursty', 'noise', 'sum', 'chirp', 'quantised', 'clipped', 'plateau', 'zeroed', 'dc', 'scaled']
+FAMILIES = ['sine', 'asym', 'bursty', 'noise', 'sum', 'chirp', 'quantised', 'clipped', 'plateau', 'zeroed', 'dc', 'scaled', 'blips']
 
 def _powerlaw(rng, n, chi):
     f = np.fft.rfftfreq(n)
@@ -63,6 +63,12 @@ def make_signal(rng, family=None, n=None, fs=None, f0=None):
         x = base + 0.3 * _powerlaw(rng, n, 1.0) + float(rng.choice([-5.0, 3.0, 100.0]))
     elif family == 'scaled':
         x = (base + 0.3 * _powerlaw(rng, n, 1.0)) * float(2.0 ** int(rng.integers(-10, 11)))
+    elif family == 'blips':
+        # a weak rhythm with a few strong stretches of one to three cycles: short runs of bursting cycles, the kind a minimum-length rule removes
+        env = np.full(n, 0.25); per = fs / f0
+        for _ in range(int(rng.integers(2, 6))):
+            a = int(rng.integers(0, max(1, n - int(3 * per)))); env[a:a + int(rng.choice([0.8, 1.2, 2.2, 3.2]) * per)] = float(rng.choice([1.5, 3.0]))
+        x = base * env + 0.05 * _powerlaw(rng, n, 1.0)
     else:
         raise ValueError(family)
     return dict(sig=np.ascontiguousarray(x, dtype=float), fs=fs, f_range=(lo, hi), family=family)
